@@ -34,6 +34,7 @@ def build_world() -> World:
     w.cls("Interp", "BaseInterpreter", "SyncInterpreter", "Interpreter")
     w.cls("Plugin", "PluginBase", "_SafePlugin")
     w.cls("Callable")
+    w.cls("Logic", "MachineLogic")
     w.cls("Flag")            # threading.Event used as a cancellation flag
     w.cls("Opaque")
 
@@ -56,6 +57,9 @@ def build_world() -> World:
     f("Node", "exit", ListSort(Act))
     f("Node", "output", OPAQUE)
     f("Node", "max_iterations", INT)
+    f("Node", "logic", Ref("Logic"))
+    f("Logic", "actions", DictSort(STR, Callable_))       # MachineLogic.actions: name -> user callable
+    f("Logic", "services", DictSort(STR, OPAQUE))
     w.inline_prop("Node", "is_final", "xstate_statemachine.models", "StateNode.is_final")
     w.inline_prop("Node", "is_atomic", "xstate_statemachine.models", "StateNode.is_atomic")
 
@@ -124,13 +128,14 @@ def build_world() -> World:
               "ActorSpawningError", "NotSupportedError", "RestoredError"):
         e(n, "XStateMachineError")
     for n in ("TypeError", "KeyError", "AttributeError", "ValueError", "IndexError",
-              "RuntimeError", "StopIteration", "UserExc"):
-        e(n, "Exception")
+              "RuntimeError", "StopIteration", "UserExc", "FactoryExc"):
+        e(n, "Exception")          # UserExc: whatever a user callable raises; FactoryExc: whatever an actor factory raises
     e("JSONDecodeError", "ValueError")
 
     # ------------------------------------------------------------------ tree theory T
     root = z3.Const("root", Node.z)
     w.consts["root"] = Val(Node, (root,))
+    w.consts["BUILTIN_ACTION_ALIASES"] = fresh(DictSort(STR, STR), "BUILTIN_ACTION_ALIASES")   # actions.py module table (uninterpreted)
     w.self_consts = {"machine": Val(Node, (root,))}      # self.machine is the root of the state tree
     w.fn("anc", [Node, Node], BOOL)          # reflexive-transitive ancestor: anc(n, a) <=> a is n or an ancestor of n
     ax = w.axiom
@@ -147,6 +152,12 @@ def build_world() -> World:
     ax("T-anc-depth", "forall[Node, Node](lambda n, a: implies(anc(n, a), a != None and a.depth <= n.depth and implies(a.depth == n.depth, a == n)), lambda n, a: anc(n, a))", "lean:anc_depth")
     ax("T-anc-trans", "forall[Node, Node, Node](lambda n, a, b: implies(anc(n, a) and anc(a, b), anc(n, b)), lambda n, a, b: (anc(n, a), anc(a, b)))", "lean:anc_trans")
     ax("T-anc-linear", "forall[Node, Node, Node](lambda n, a, b: implies(anc(n, a) and anc(n, b), anc(a, b) or anc(b, a)), lambda n, a, b: (anc(n, a), anc(n, b)))", "lean:anc_linear")
+
+    # definition objects of a built machine (A-tree: constructed by StateNode.__init__ / create_machine): lists of definitions hold objects
+    ax("D-logic", "root.logic != None", "bounded:MachineNode.__init__ stores the MachineLogic that create_machine builds or receives")
+    ax("D-exit-nonnull", "forall[Node, int](lambda n, i: implies(n != None and 0 <= i and i < len(n.exit), n.exit[i] != None), lambda n, i: n.exit[i])", "bounded:StateNode.__init__ builds exit from ActionDefinition(...) constructor calls")
+    ax("D-entry-nonnull", "forall[Node, int](lambda n, i: implies(n != None and 0 <= i and i < len(n.entry), n.entry[i] != None), lambda n, i: n.entry[i])", "bounded:StateNode.__init__ builds entry from ActionDefinition(...) constructor calls")
+    ax("D-actions-nonnull", "forall[Trans, int](lambda t, i: implies(t != None and 0 <= i and i < len(t.actions), t.actions[i] != None), lambda t, i: t.actions[i])", "bounded:TransitionDefinition.__init__ builds actions from ActionDefinition(...) constructor calls")
 
     # child_toward(d, t): the child of d on the path down to t (defined when t is a proper descendant of d)
     w.fn("child_toward", [Node, Node], Node)
@@ -180,6 +191,20 @@ def build_world() -> World:
     w.assume("A-tree: every StateNode value handled by a verified function belongs to the tree of self.machine "
              "(single finite parent-pointer tree rooted at the MachineNode); StateNode.__init__'s recursive "
              "construction of that tree is validated by the bounded layer, not proved")
+
+    w.assume("A-user: a user-supplied callable (guard, subscriber, emit listener, plugin hook body, service) may return anything or raise "
+             "any Exception that is not a library error, and does not write the interpreter's private fields")
+    w.assume("A-user-action: a user ACTION may in addition write context and call the interpreter's public API re-entrantly: send() - "
+             "which only appends while an event is being processed (proved: SyncInterpreter.send) - and stop() (status moves along an allowed "
+             "edge, timer/actor tables may be emptied); it never writes the configuration or the history directly")
+    w.assume("A-processing: `_is_processing` is a real field of SyncInterpreter; for the asyncio Interpreter it is a model-only flag meaning "
+             "'an event is being processed' (async send() never processes inline, it only enqueues)")
+    w.assume("A-seq: one thread of control at a time runs interpreter code (timer threads / asyncio tasks enter through send()); "
+             "`async`/`await` keywords are dropped by the extraction")
+    w.assume("A-log: logger calls are effect-free (their arguments are checked to contain no calls other than attribute reads)")
+    w.assume("A-actors: another interpreter (child or parent actor) never writes this interpreter's private fields; it reaches it through send()")
+    w.assume("A-uuid: a string embedding a fresh uuid4 differs from every string that existed before")
+    w.assume("A-int: python integers are mathematical integers (exact in python); strings are z3/cvc5 sequences of unicode code points")
 
     # ------------------------------------------------------------------ hooks
     def annotation_hook(txt):
@@ -234,11 +259,29 @@ def build_world() -> World:
         # may return anything, may raise any Exception subclass that is not a library error
         # (UserExc), and - assumption A-user - does not write interpreter-private fields.
         if isinstance(recv, Val) and recv.sort == Callable_ and name.startswith("<call:"):
+            eff = getattr(eng.contract, "user_effect", None)
+            if eff:          # a user ACTION may also use the public API re-entrantly (send / stop): see user_effects below
+                return eng.apply_contract(node, st, w.user_effects[eff], [], {})
             sx = st.copy()
             eng.raised.append(Outcome("raise", sx, ExcVal("UserExc")))
             return [(st, fresh(OPAQUE, "userret"))]
         return None
     w.external_hook = external_hook
+
+    # What calling a user ACTION may do (assumption A-user, action flavour): besides returning anything or raising,
+    # it may write context and use the interpreter's public API - send() (append-only while an event is being
+    # processed) and stop() (status along an allowed edge, timer/actor tables emptied).  Never the configuration.
+    from pyvc.world import Contract
+    ua = Contract("model:user_action", [], props=[])
+    ua.returns(OPAQUE)
+    ua.mod("self.context", "self.status", "self._after_events", "self._after_threads", "self._pending_send_cancels",
+           "self._scheduled_sends", "self._actors", "self._event_queue", "self.g_accepted")
+    _keep = ["status_reach(old(self.status), self.status)",
+             "implies(old(self._is_processing), appended_only(old(self._event_queue), old(self.g_accepted), self._event_queue, self.g_accepted))"]
+    for t in _keep:
+        ua.ens(t)
+    ua.may_raise("UserExc", ensures=_keep)
+    w.user_effects = {"action": ua}
 
     def ctor_hook(eng, node, st, clsname, args, kw):
         """Constructors of the event classes: a fresh non-null event with the given type."""
